@@ -42,6 +42,46 @@ Definition item_ptype (f : field) : ptype :=
 Definition decl_ptype (f : field) : ptype :=
   if is_map f then TMessage else item_ptype (elem f).
 
+
+(* ------------------------------------------------------------------ references and imports *)
+(* README "Packages and Imports": an import names a whole package and brings it into scope by
+   the package name without the version ('bar' for foo.bar.v1), by the full package name, or by
+   the alias; a file import ("dir/file.proto") brings in the package of that directory under
+   its full name.  A reference without package, or with the file's own package, is local. *)
+Definition last_but_one (p : str) : option str :=
+  match rev (split 46 p) with _ :: wv :: _ => Some wv | _ => None end.
+
+Definition import_pkg (i : import) : str :=
+  if existsb (fun c => c =? 47) (i_path i) then package_from_filename (i_path i) else i_path i.
+
+Definition import_key (i : import) (spec : str) : Prop :=
+  if existsb (fun c => c =? 47) (i_path i) then spec = package_from_filename (i_path i)
+  else match i_alias i with
+       | _ :: _ => spec = i_alias i
+       | [] => spec = i_path i \/ Some spec = last_but_one (i_path i)
+       end.
+
+Inductive denotes (this : str) (imports : list import) (spec full : str) : Prop :=
+| den_own : (spec = [] \/ spec = this) -> full = this -> denotes this imports spec full
+| den_import : forall i, In i imports -> import_key i spec -> full = import_pkg i ->
+    denotes this imports spec full.
+
+(* every reference of a run of properties, at any depth *)
+Fixpoint refs_of_field (f : field) {struct f} : list ref :=
+  match f with
+  | FObjRef r | FOneofRef r | FEnumRef r => [r]
+  | FObjInline _ ps | FOneofInline _ ps => refs_of_props ps
+  | FArray it | FMap it => refs_of_field it
+  | _ => []
+  end
+with refs_of_props (ps : props) {struct ps} : list ref :=
+  match ps with
+  | PNil => []
+  | PCons p r => refs_of_property p ++ refs_of_props r
+  end
+with refs_of_property (p : property) {struct p} : list ref :=
+  match p with Property _ _ _ f => refs_of_field f end.
+
 Section Contract.
 Variables snake camel screaming : str -> str.
 
